@@ -76,6 +76,17 @@ _WHERE = {
             "'tokenizes as HTML' here) and its projection of the real object tree, CPython.",
             "TLA+ spec (Render/RenderOps/ParseBackOps) model-checked with TLC; TLC-enumerated trees replayed into the "
             "code; tokenised real output validated by TLC trace spec (ParseTrace)"),
+    "C14": ("children", "C14",
+            "TLC explores every history of child operations up to the bound over a pool of nested / dropped / converted / "
+            "unsupported arguments and checks that the accumulator-shaped model of flatten + _tagchilds_to_tagnodes "
+            "equals the declarative depth-first flattening, that only tag nodes are stored and that a TypeError leaves "
+            "the list unchanged; every explored history is replayed on a real TagList or Tag, and seeded random "
+            "histories (to 30 operations, nesting to depth 6) are recorded; TLC judges every step of every history "
+            "against the declarative reading.",
+            "Trusted: TLC/SANY, FlatSpec/ApplySpec in spec/NormalizeOps.tla, the projection of list(x) by element type "
+            "and label, CPython.",
+            "TLA+ spec (Normalize/NormalizeOps) model-checked with TLC; TLC-generated histories replayed into the code; "
+            "recorded histories validated by TLC trace spec (ListTrace)"),
 }
 
 NOT_YET = {}
